@@ -66,6 +66,8 @@ def checkTracks (c : Cfg) (s : State) (skip : SrcP → Bool) : Option String :=
   firstSome (List.range (ntargets s)) fun t =>
     firstSome ((s.refs[t]?).getD []) fun kv =>
       if (linkDeps c t kv).any skip then none else
+      -- a reference whose evaluation raises Skip has no value to offer: no obligation
+      if skipsRhs c (srcWorld s.src) kv.2 (nestedOf c t kv.1) then none else
       match expected c s.src kv.2 (nestedOf c t kv.1), c.decl t kv.1 with
       | some v, some d =>
         if d.valid v && tgtVal s t kv.1 != some v then
@@ -176,9 +178,11 @@ def specC08 (c : Cfg) (init : State) (steps : List (Op × StepObs)) : Nat × Opt
           | .srcSet s i v =>
             (if ((post.src[s]?).bind (·[i]?)) != some v then some "the source does not hold the assigned value" else none)
             <|> (if ok then checkSrcStep c pre post (s, i) o.log else none)
-          | .setCls _ _ _ =>
-            checkOthers pre post none [] false
-            <|> (if pre.watch != post.watch || pre.src != post.src then some "a class-level assignment changed watchers or sources" else none)
+          | .setCls t p _ =>
+            -- (the instance may be reading the class default of p: a link that has not delivered a value yet)
+            checkOthers pre post (some t) [p] false
+            <|> (if pre.watch != post.watch || pre.src != post.src || pre.refs != post.refs then
+                  some "a class-level assignment changed links, watchers or sources" else none)
           | .ctxExit =>
             (match stack with
               | top :: _ => (if ok then checkRestored post top else none) <|> checkOthers pre post (some top.t) top.keys true
@@ -230,23 +234,30 @@ def Op.target : Op → Option Nat
 
 def rejected (o : StepObs) : Bool := o.err == some "ValueError" || o.err == some "TypeError"
 
-/-- number of events the universal watcher of target t was handed during the step -/
-def announced (t : Nat) (log : List Entry) : Nat :=
-  (log.filter (fun e => e.who == .tgt && e.idx == t)).foldl (fun n e => n + e.evs.length) 0
+/-- how many leading keys of a (rejected) `update` were applied: a key is applied when the universal
+watcher of t was told about it, or when it is a reference whose evaluation raised Skip (the link is
+made, nothing is stored and nothing announced) -/
+def appliedPrefix (c : Cfg) (pre : State) (t : Nat) (kvs : List (Nat × Rhs)) (log : List Entry) : Nat :=
+  let evKeys := (log.filter (fun e => e.who == .tgt && e.idx == t)).flatMap (·.evs.map (·.1))
+  (kvs.takeWhile fun kv =>
+    evKeys.contains kv.1 ||
+    (((c.decl t kv.1).map (·.allowRefs)).getD false && !(linkDeps c t kv).isEmpty &&
+      skipsRhs c (srcWorld pre.src) kv.2 (nestedOf c t kv.1))).length
 
 /-- the history with every rejected assignment left out: an `update` rejected at its k-th key
 becomes the update of the keys before it (those *are* applied — C05), anything else a no-op -/
-def twinOps (steps : List (Op × StepObs)) : List Op :=
-  steps.map fun (op, o) =>
-    if rejected o && op.isAssign then
+def twinOps (c : Cfg) : State → List (Op × StepObs) → List Op
+  | _, [] => []
+  | pre, (op, o) :: rest =>
+    (if rejected o && op.isAssign then
       match op with
-      | .update t kvs | .ctxEnter t kvs => .update t (kvs.take (announced t o.log))
+      | .update t kvs | .ctxEnter t kvs => .update t (kvs.take (appliedPrefix c pre t kvs o.log))
       | .set t _ _ | .setCls t _ _ => .update t []
       | _ => op
-    else op
+    else op) :: twinOps c o.st rest
 
 /-- C02 on an observed run and on the observed run of its twin history -/
-def specC02 (init : State) (steps : List (Op × StepObs)) (twin : List StepObs) : Nat × Option String :=
+def specC02 (c : Cfg) (init : State) (steps : List (Op × StepObs)) (twin : List StepObs) : Nat × Option String :=
   let rec go (pre : State) (steps : List (Op × StepObs)) (twin : List StepObs) (n k : Nat) : Nat × Option String :=
     match steps, twin with
     | [], _ => (k, none)
@@ -263,8 +274,8 @@ def specC02 (init : State) (steps : List (Op × StepObs)) (twin : List StepObs) 
             -- the rejected key and the keys after it: untouched
             match keysOf op with
             | some (t, kvs) =>
-              (firstSome (kvs.drop (announced t o.log)) fun kv =>
-                if (kvs.take (announced t o.log)).any (·.1 == kv.1) then none
+              (firstSome (kvs.drop (appliedPrefix c pre t kvs o.log)) fun kv =>
+                if (kvs.take (appliedPrefix c pre t kvs o.log)).any (·.1 == kv.1) then none
                 else if refOf pre t kv.1 != refOf o.st t kv.1 then some s!"the rejected update changed the link of its rejected key p{kv.1}"
                 else if tgtVal pre t kv.1 != tgtVal o.st t kv.1 then some s!"the rejected update changed the value of its rejected key p{kv.1}"
                 else none)
